@@ -36,11 +36,15 @@ structure Leaks where
   mapAcc : Bool     -- mapper.Generator.getsetMethods/destGetSetMethods likewise
   deriving DecidableEq, Repr, Inhabited
 
-/-- the code at the pinned commit.  FLIP HERE after a `fix:` commit (then `C08_reset_partial` can be
-    replaced by the instance of `C08_reset_fixed`, and the witness theorems of the fixed leaks go). -/
-def codeToday : Leaks := { hasNew := true, newAcc := true, mapCtor := true, mapAcc := true }
-
 def noLeaks : Leaks := { hasNew := false, newAcc := false, mapCtor := false, mapAcc := false }
+
+/-- the code before the `fix:` commits 2659527 (new) and 002876f (map): all four fields were carried -/
+def codeBeforeFix : Leaks := { hasNew := true, newAcc := true, mapCtor := true, mapAcc := true }
+
+/-- the code at HEAD: `constructor.MakeData` resets `hasNew`/`getsetMethods` (2659527) and `mapper.MakeData` resets
+    the constructor-parameter and accessor lists (002876f) for every type.  (A field that starts to leak again is
+    caught by `C08_leaks_fixed` over the regenerated facts and by the correspondence.) -/
+def codeToday : Leaks := noLeaks
 
 /-! ## Generated files as the analysis sees them -/
 
